@@ -42,7 +42,7 @@ def run(ctx, rep):
             rep.ob('R12.1', f'conventional:{k}:weather', not hw, 'independent of weather' if not hw else f'{k} depends on weather')
     rep.floor('conventional matrix rows', n, 6)
     # ---- policy None worlds: intervals ------------------------------------------------------------------------
-    pa = W.get(ctx)
+    pa = W.get(ctx, rep)
     nn = 0
     for w in pa.worlds:
         if w.policy != 'None' or not w.final:
@@ -73,6 +73,10 @@ def run(ctx, rep):
             rep.ob('R12.1', f'None:{k}:untouched', ok, 'equals the conventional value' if ok else
                    f'{k} changed under policy None: {W.show_cell(fin[k])}', world=w.describe())
     rep.floor('policy-None worlds', nn, 16)
+    n_int = sum(1 for (r_, k_, st_, d_) in rep.obls if r_ == 'R12.2' and k_.endswith(':interval-definition'))
+    n_noint = sum(1 for (r_, k_, st_, d_) in rep.obls if r_ == 'R12.2' and k_.endswith(':no-interval'))
+    rep.floor('interval definitions checked under policy None', n_int, 16)
+    rep.floor('zero-interval cases checked under policy None', n_noint, 16)
     # ---- offsets: converter key = map key; Imsaak under Fajr ------------------------------------------------------
     conv = ctx.role('time_converter')
     eng2, tree2 = c07.dt_level(ctx, interest={conv})
@@ -139,3 +143,7 @@ def run(ctx, rep):
     # is documented not to depend on
     from . import c08 as _c08
     shared.include(ctx, rep, _c08.run, {'R8.1', 'R8.2'}, why='policies change only what they name')
+    # the portion policies read the angle of the prayer they replace (own-key rule of the formulas)
+    from . import c10 as _c10
+    shared.include(ctx, rep, _c10.run, {'R10.2'}, why='a replaced Fajr/Isha depends on its own angle only')
+
